@@ -114,6 +114,13 @@ def run(tier, seed, rng):
             # |s| = lr^2 |sum <V, D>| lands between kl_clip = 1e-9 and the float32 machine epsilon: small but NOT zero, clipping binds
             cfg['lr'] = rng.choice([1e-4, 3e-5])
         cfg['inv_update_steps'] = 1; cfg['factor_update_steps'] = 1
+        if k % 5 == 2:
+            # stratum: explicit inverses broadcast as packed triangles to several gradient workers (INVERSE, symmetry_aware, k > 1):
+            # the inverse worker and the receivers must precondition with the same matrix, bit for bit
+            cfg['W'] = rng.choice([2, 4]); cfg['k'] = rng.choice([2, cfg['W']]); cfg['grad_worker_fraction'] = cfg['k'] / cfg['W']
+            cfg['compute_method'] = 'inverse'; cfg['compute_eigenvalue_outer_product'] = False; cfg['symmetry_aware'] = True
+            if mode in ('none', 'huge'):
+                cfg['kl_clip'] = 1e-6
         zero = rng.random() < 0.1
         if zero:
             cfg['zero_grads'] = True
@@ -157,6 +164,9 @@ def run(tier, seed, rng):
                         probs.append(f'rank {r} layer {li}: gradients are not {nu_impl:.6g} * V (deviation {dev:.2e})')
                 if kl is None and any(not np.array_equal(a, v) for a, v in zip(A_r, V_r)):
                     probs.append(f'rank {r}: kl_clip=None changed the preconditioned gradients')
+                # one scalar, one V: every rank ends the step with bit-identical gradients
+                if r > 0 and any(not np.array_equal(a, a0) for a, a0 in zip(A_r, per_rank[0][4])):
+                    probs.append(f'rank {r}: final gradients are not bit-identical to those of rank 0 (the ranks did not apply one common scalar to one common V)')
             if abs(nu_impl - nu_model) > 2e-5 * max(1.0, nu_model):
                 probs.append(f'applied factor {nu_impl:.8g} != min(1, sqrt(kl/|s|)) = {nu_model:.8g} (s = {s_model:.6g})')
             # oracle: the property inequality, in float64 from the implementation's own outputs
